@@ -48,6 +48,7 @@ class Check(BaseCheck):
                 specs.append({'campaign': 'labels', 'n': 200000, 'seed': seed, 'i': i})
                 specs.append({'campaign': 'nonlabels', 'n': 200000, 'seed': seed, 'i': i})
                 specs.append({'campaign': 'parser', 'n': 30000, 'seed': seed, 'i': i})
+        specs.append({'campaign': 'confusables'})
         return specs
 
     # ------------------------------------------------------------------
@@ -114,6 +115,8 @@ class Check(BaseCheck):
         else:
             ci = rnd.randrange(0, 26 ** 7)
         ri = rnd.choice([0, 8, 9, 98, 99, 1048575, rnd.randrange(0, 1048576), rnd.randrange(0, 10 ** 12)])
+        if rnd.random() < 0.25:         # small correlated coordinates: every (row, column) pair below 40 is met
+            ci, ri = rnd.randrange(0, 40), rnd.randrange(0, 40)
         ca, ra = rnd.random() < 0.5, rnd.random() < 0.5
         col = ''.join(c.lower() if rnd.random() < 0.4 else c for c in m.col_label(ci))
         return ('$' if ca else '') + col + ('$' if ra else '') + str(ri + 1), (ca, ci, ra, ri)
@@ -162,6 +165,40 @@ class Check(BaseCheck):
                 rec.violation(key, label=s, got=got)
             rec.nt(('nonlabel', s))
             rec.sample({'non_label': s})
+
+    def c_confusables(self, spec, rec, hc):
+        """every non-ASCII character whose upper/lower/casefold/NFKC form is an ASCII letter or digit, put where a letter or a
+        digit of a label would stand: such strings are not cell labels and must decompose to nothing"""
+        import unicodedata
+        letters, digits = [], []
+        for cp in range(128, 0x110000):
+            if 0xD800 <= cp <= 0xDFFF:
+                continue
+            c = chr(cp)
+            forms = (c.upper(), c.lower(), c.casefold(), unicodedata.normalize('NFKC', c), unicodedata.normalize('NFKD', c))
+            if any(f and all(ch.isascii() and ch.isalpha() for ch in f) for f in forms):
+                letters.append(c)
+            if c.isdigit() or c.isdecimal() or c.isnumeric() or any(f and all(ch.isascii() and ch.isdigit() for ch in f) for f in forms):
+                digits.append(c)
+        rec.count('confusable_letters', len(letters))
+        rec.count('confusable_digits', len(digits))
+        for c in letters:
+            for s in (c + '1', 'A' + c + '1', '$' + c + '$7', c + c + '12', c.upper() + '1', c.lower() + '1'):
+                if m.LABEL_SHAPED.match(s) and s.isascii():
+                    continue
+                rec.case()
+                got = hc.extract_label(s)
+                if got != []:
+                    rec.violation('C19/extract_label:non-label-decomposes:non-ascii-letter', label=s, codepoint=hex(ord(c)), got=got)
+                rec.nt(('confl', s))
+        for c in digits:
+            for s in ('A' + c, 'A1' + c, 'A' + c + '1', '$B$' + c):
+                rec.case()
+                got = hc.extract_label(s)
+                if got != []:
+                    rec.violation('C19/extract_label:non-label-decomposes:non-ascii-digit', label=s, codepoint=hex(ord(c)), got=got)
+                rec.nt(('confd', s))
+        rec.sample({'non_label': u'\u00df1', 'why': 'upper-cases to SS1'})
 
     def c_parser(self, spec, rec, hc):
         """Labels as they flow through formula evaluation: the cell event must carry the model's coordinates."""
